@@ -20,14 +20,20 @@ length, same distinctness).  Both renderings are parsed by the strict checker
                       data (references resolved) of a structurally clean
                       rendering, where the options neither filter nor truncate
   value-modified      to_json(value) (or its format) changed by rendering
+  render-raises       the library raised instead of producing a document
 
 The mechanism is the *kind of position* that carried the payload, found by
 re-rendering with only one kind hostile: key@summary / key@label (dict keys and
 dynamic field names, split by the forced `key_style`), diff-key, root-name,
 root-path, str-leaf, repr-leaf, class-name, doc, `<Control>.<field>`,
-Html.escape@text / Html.escape@attr; `combination` when no single kind
-reproduces it.
+Html.escape@text / Html.escape@attr; `combination:<subject>` when no single
+kind reproduces it.  For a guilty kind the clause does not depend on the random
+payload that happened to sit there: it is decided by two fixed probe payloads
+(`<zq17 zq17=1>`, inert inside a quoted attribute value, and `" zq17="1`, inert
+in a text position) put into every slot of that kind.  For `render-raises` on
+the benign build the mechanism is the greedily minimised set of option names.
 """
+import html
 import itertools
 import json
 import traceback
@@ -40,8 +46,8 @@ Html = pg.Html
 C = pg.views.html.controls
 
 TIERS = {
-    'quick': dict(shards=8, cases=150),
-    'thorough': dict(shards=16, cases=2600),
+    'quick': dict(shards=8, cases=200),
+    'thorough': dict(shards=16, cases=4000),
 }
 RULE = ('case = one description (60 % nested Dict/List/tuple/Object/Ref/Diff/'
         'contextual value rendered by the tree view under a random option set '
@@ -63,7 +69,7 @@ ASSUMPTIONS = [
     'the strict rules (explicit end tags, attribute grammar, no raw <) are stronger than HTML5 parsing',
     'pg.Html objects, inner_html strings, css_classes, styles, ids, titles, colors and CSS selectors '
     'passed by the caller are markup/configuration by contract and are only given benign values',
-    'dict keys are bracket-balanced and contain no "." (other keys are refused or re-interpreted at construction)',
+    'dict keys contain no ".", "[" or "]" (such keys are refused at construction or re-interpreted as paths by `root_path + key`: path addressing, C10)',
     'presence is checked on the character data outside elements of class "tooltip", only for keys/leaves '
     'the options do not filter (no callable include/exclude, root-level key lists modelled), and only on '
     'renderings without structural findings; either repr(s) or s is accepted for a string leaf',
@@ -83,7 +89,6 @@ TEMPLATES = [
      '<zq17 zq17="1">', True),
     ('comment', '{t}--><zq17 zq17="1"><!--', True),
     ('cdata', '{t}]]><zq17 zq17="1"><![CDATA[', False),
-    ('cdata-key', '{t}<![CDATA[a]]><zq17 zq17="1">', True),
     ('script', '{t}</script></style><zq17 zq17="1"><script>', True),
     ('backslash', '{t}\\"\\><zq17 zq17=\\"1\\">\\', True),
     ('dq-attr', '{t}" zq17="1', True),
@@ -109,17 +114,11 @@ KEY_TEMPLATES = [t for t in TEMPLATES if t[2]]
 REPR_TEMPLATES = [t for t in TEMPLATES if '\n' not in t[1]]
 
 
-def _balanced(s):
-  d = 0
-  for ch in s:
-    d += ch == '['
-    d -= ch == ']'
-    if d < 0:
-      return False
-  return d == 0
-
-
-assert all(_balanced(t[1]) and '.' not in t[1] for t in KEY_TEMPLATES)
+# Keys: no '.', '[' or ']' at all.  A bracket-balanced key such as 'a[b]c' is
+# accepted by pg.Dict, but every `root_path + key` (also in the tree view)
+# parses it as a path, so it is addressed and displayed as its last element --
+# path addressing (C10), not escaping.
+assert all(not set('.[]') & set(t[1]) for t in KEY_TEMPLATES)
 
 
 class Slots:
@@ -235,6 +234,11 @@ class Gen:
               self.value(depth + 1, path + [['plain', 'x']]),
               self.value(depth + 1, path + [['plain', 'y']])]
     if r < 0.92:
+      if rng.random() < 0.5:
+        # Ref has its own summary title (type name of the referred value).
+        self.class_kinds.add('class-name')
+        return ['R', ['O', rng.choice(['NameElem', 'NameAttr', 'Lambda']),
+                      self.leaf(), self.leaf()]]
       return ['R', self.value(depth + 1, path)]
     if r < 0.97:
       return self.diff(depth)
@@ -243,6 +247,13 @@ class Gen:
   def diff(self, depth):
     """A pg.diff of a Dict/List and an edited copy of it."""
     rng = self.rng
+    if rng.random() < 0.3:
+      # Diff of two objects of one class: the title is the class name.
+      self.class_kinds.add('class-name')
+      cls = rng.choice(['NameElem', 'NameAttr', 'Lambda'])
+      same = self.leaf()
+      return ['X', ['O', cls, same, self.leaf()], ['O', cls, same, self.leaf()],
+              rng.choice(['diff', 'both'])]
     left = None
     for _ in range(4):
       left = self.value(max(depth, 1) + 1, [], key_kind='diff-key')
@@ -341,6 +352,8 @@ def key_shown(child, flags):
   removes every summary, `enable_summary_for_str=False` those of strings.
   """
   es, esf = flags
+  while child[0] == 'R':     # pg.Ref(<non-symbolic>) is the value itself
+    child = child[1]
   return es is not False and (esf or child[0] != 's' or es is True)
 
 
@@ -677,7 +690,9 @@ def build_control(d, S, mode):
       c = t['content']
       if c[0] == 'value':
         content = build(c[1], S, mode)
-        if not isinstance(content, pg.Symbolic):
+        # pg.Html.write() *calls* a callable (documented writable type), so a
+        # functor object is not a tab content that would be rendered.
+        if not isinstance(content, pg.Symbolic) or callable(content):
           content = pg.Dict(v=content)
       elif c[0] == 'control':
         content = build_control(c[1], S, mode)
@@ -827,7 +842,7 @@ def _lib_raised(e):
 
 
 def evaluate(ctx, subj):
-  """The whole oracle for one subject."""
+  """The whole oracle for one subject; False if a rendering raised."""
   c = ctx.counters
   S = subj.S
   kinds = sorted(subj.kinds())
@@ -885,7 +900,7 @@ def evaluate(ctx, subj):
     ctx.violation('render-raises', subj.blame_options(ctx),
                   'benign build: ' + ''.join(
                       traceback.format_exception(e.exc))[-2500:], case)
-    return
+    return False
   if rt.errors:
     ctx.violation('malformed', 'benign:' + subj.name, rt.describe() +
                   '\n' + t_text[:1500], case)
@@ -910,10 +925,10 @@ def evaluate(ctx, subj):
       ctx.violation('render-raises', subj.mechanism(k),
                     'hostile build only: ' + ''.join(
                         traceback.format_exception(e.exc))[-2500:], case)
-    return
+    return False
   verdict, missing = compare(rh, h_exp, rt, t_missing)
   if verdict is None and not missing:
-    return
+    return True
 
   # 3. attribute to payload kinds: one kind hostile at a time.  For a guilty
   # kind the clause is decided by two fixed probe payloads (so that it does not
@@ -970,7 +985,7 @@ def evaluate(ctx, subj):
                   'combination:' + subj.name,
                   f'{detail}\nno single payload kind reproduces it; kinds '
                   f'{kinds}; hostile rendering:\n{h_text[:1800]}', case)
-    return
+    return True
   # 4. the remaining kinds together must be clean.
   r_text, rr, r_exp = parse(rest)
   vr, mr = compare(rr, r_exp, rt, t_missing)
@@ -979,6 +994,7 @@ def evaluate(ctx, subj):
     ctx.violation(vr[0] if vr else 'absent', 'combination:' + subj.name,
                   f'{detail}\nkinds {rest} are clean one at a time but not '
                   f'together; hostile rendering:\n{r_text[:1800]}', case)
+  return True
 
 
 class TreeSubject(Subject):
@@ -1102,15 +1118,18 @@ class ControlSubject(Subject):
     before = snapshot(ctrl)
     self.ctx.label = 'render:controls/' + how
     try:
-      if how == 'method':
-        text = ctrl.to_html_str(content_only=co, **kw)
-      elif how == 'fn':
-        text = pg.to_html_str(ctrl, content_only=co, **kw)
-      elif how == 'to_html':
-        text = ctrl.to_html(**kw).to_str(content_only=co)
-      else:   # a control as a member of a symbolic container
-        text = pg.to_html_str(pg.Dict(a=ctrl, b=pg.List([1, ctrl.clone()])),
-                              content_only=co, **kw)
+      # Controls ignore render arguments; a forced key_style reaches embedded
+      # tree views (tab contents) through the scoped view options.
+      with pg.view_options(**kw):
+        if how == 'method':
+          text = ctrl.to_html_str(content_only=co)
+        elif how == 'fn':
+          text = pg.to_html_str(ctrl, content_only=co)
+        elif how == 'to_html':
+          text = ctrl.to_html().to_str(content_only=co)
+        else:   # a control as a member of a symbolic container
+          text = pg.to_html_str(pg.Dict(a=ctrl, b=pg.List([1, ctrl.clone()])),
+                                content_only=co)
     finally:
       self.ctx.label = None
     after = snapshot(ctrl)
@@ -1261,7 +1280,7 @@ def run_case(ctx, i):
     c['slots:' + k] += 1
     c['template:' + tid] += 1
 
-  evaluate(ctx, subj)
+  evaluated = evaluate(ctx, subj)
 
   if isinstance(subj, ApiSubject):
     # Exact round trip: escaped text and attribute values come back verbatim.
@@ -1278,13 +1297,17 @@ def run_case(ctx, i):
                       f'{want_text!r}\n{text[:1500]}', subj.case())
       got = [(n, v) for _, n, v in rep.attrs if n not in ('class', 'style')
              and v is not None]
-      if sorted(got) != sorted(want_attrs):
+      # Who escapes an attribute value (the caller with Html.escape, as here,
+      # or Html.element itself) is not fixed by the property: a value that
+      # comes back escaped exactly once more is accepted.
+      twice = [(n, html.escape(v)) for n, v in want_attrs]
+      if sorted(got) not in (sorted(want_attrs), sorted(twice)):
         ctx.violation('absent', 'Html.escape@attr',
                       f'attribute values {sorted(got)!r} != written '
                       f'{sorted(want_attrs)!r}\n{text[:1500]}', subj.case())
 
   kinds_used = S.kinds()
-  if len(S.items) >= 3 and len(kinds_used) >= 2:
+  if evaluated and len(S.items) >= 3 and len(kinds_used) >= 2:
     ctx.mark_nontrivial((shape(desc, S), fp_extra))
   ctx.seen('descriptions', shape(desc, S))
   ctx.seen('payload_kind_sets', sorted(kinds_used | subj.kinds()))
